@@ -204,6 +204,7 @@ func runL3(args []string) {
 	rep.Rule = "statements of 1-3 generated output expressions over the zoo; one scripted result row whose columns are the generated aliases permuted, " +
 		"with foreign / near-miss column names interleaved, dropped or duplicated; values NULL / suitable / unsuitable per destination kind; destinations with prior contents " +
 		"in every form (*struct, map, *map, nil, nil map, pointer to nil map, by value, duplicate, unrelated); non-trivial = at least one destination written or an error; " +
+		"half of the cases on a DB where the same Statement was run before with the columns in reverse order; a failed read is repeated on the same Query; " +
 		"distinct by hash of query, columns, row and destination forms"
 	r := rng.New(*seed)
 	g := qgen.New(r.Fork(), zooSchema())
